@@ -10,45 +10,57 @@ TRUST = ("rustc nightly front end + MIR construction; Instance::try_resolve call
          "cfg(test) off is analysed. Decides structural necessary conditions, not the behaviour.")
 
 CLAIMS = {
-    "C01": ("VERD-1 tombstone-vs-miss verdicts in Table::get / MemTable::get / Version::get / DB::get; ORD-1 newest-first source "
-            "order in DB::get; ROLE-1 smallest/largest fidelity at every add_file site and in the FileMetadata codec; ACC-1 direction "
-            "of min/max accumulators over file bounds", "§5 C01",
-            "verdict discipline + role-colour dataflow + dominance over MIR"),
-    "C02": ("ORD-2 write-ahead order, ORD-3 flush/compaction install order, ORD-4 CURRENT temp-then-rename, ORD-5 manifest before "
-            "CURRENT, GRD-1/ORD-6 WAL replay selection and order", "§5 C02", "must-pass-through / success-edge dominance over MIR CFG"),
-    "C03": ("GRD-2 compaction retention guards, ORD-7 smallest-snapshot source, LCK-1 capture under the mutex, PAIR-1 version pins, "
-            "VERD-1", "§5 C03", "control-dependence guards + origin dataflow + lock regions"),
+    "C01": ("VERD-1 tombstone-vs-miss verdicts and verdict-stops-search in Table::get / MemTable::get / Version::get / DB::get; ORD-1 newest-first "
+            "source order; KEY-1 InternalKey order (user key ascending, sequence descending); ROLE-1/ROLE-4/ROLE-5 file-bound fidelity, persisted "
+            "counters, version-builder ordering; ACC-1 accumulator direction; GRD-10 closed-interval comparisons; GRD-13 internal-key file search; "
+            "GRD-14 level-0 manual compaction inputs; ORD-3 flush install order; ORD-8c/GRD-11 sequence and WAL offset after reopen; GRD-3; LCK-2",
+            "§5 C01, §11.3", "verdict discipline + role-colour dataflow + dominance over MIR"),
+    "C02": ("ORD-2 write-ahead order, ORD-3 flush/compaction install order, ORD-4 CURRENT temp-then-rename, OWN-1 CURRENT never removed, ORD-5 "
+            "manifest before CURRENT, GRD-1/ORD-6 WAL replay selection and order, ROLE-4 persisted counters, ORD-8c, OWN-9 create modes, GRD-5, "
+            "TS-1/GRD-6/GRD-12 log reader and reuse of complete logs only", "§5 C02, §11.3", "must-pass-through / success-edge dominance over MIR CFG"),
+    "C03": ("GRD-2 compaction retention guards, ORD-7 smallest-snapshot source and snapshot-list ends, LCK-1 capture under the mutex, ORD-8, "
+            "ORD-3, GRD-3, GRD-13, PAIR-9 boundary inputs, KEY-1, PAIR-5 filter registration, VERD-1, PAIR-1 version pins, GRD-5",
+            "§5 C03, §11.3", "control-dependence guards + origin dataflow + lock regions"),
     "C04": ("PAIR-7 direction agreement of the 20 positioning methods of TwoLevelIterator / FilesEntryIterator / MergingIterator / "
-            "DatabaseIterator (forward methods position through the forward helper, backward through the backward helper, a value is returned "
-            "only after the helper ran, an exhausted child makes the two-level iterators move on) and GRD-3 the sequence filter of the "
-            "client iterator; NOT the cursor-vs-sorted-map equivalence", "§6/§11.3 C04", "sibling direction table + must-pass-through"),
-    "C05": ("LCK-2 atomic capture of (sequence, memtable, immutable memtable, version) under the mutex; ORD-8 publication after the "
-            "unlocked WAL+memtable section; ORD-9 rotation without release point; OWN-2/OWN-3 single writer", "§5 C05",
-            "lock-region dataflow + who-may-call over the call graph"),
-    "C06": ("ORD-8 publication order, LCK-1 sequence captured under the mutex, GRD-3 sequence filter on every yielding path of the "
-            "client iterator", "§5 C06", "lock-region dataflow + guards"),
-    "C07": ("ACC-1 accumulator direction, GRD-2 retention/tombstone guards, ROLE-1 version-edit fidelity, PAIR-3 bounds captured from "
-            "the entries added", "§5 C07", "accumulator-direction + control-dependence + role colours"),
-    "C08": ("ERR-1 error discipline over every Result site of the lib crate, GRD-4 sticky-error gates, ORD-3, PAIR-2 group result "
-            "delivered to followers and leader", "§5 C08", "error-edge path analysis over MIR"),
-    "C09": ("LCK-3 no re-entrant DB-mutex acquisition, LCK-4 waits in re-testing loops, ORD-10 worker epilogue, PAIR-4 schedule flag, "
-            "ORD-11 writer hand-off, ORD-12 Drop order", "§5 C09", "lock-region dataflow + call-graph summaries + must-pass-through"),
-    "C10": ("ROLE-1 smallest/largest fidelity, ROLE-2 writer/reader field-order agreement of the manifest codec, PAIR-3", "§5 C10",
-            "role-colour dataflow"),
-    "C11": ("GRD-5 deletion guards, OWN-4 who may delete, ORD-13 pending outputs registered before build, PAIR-1 version pins "
-            "released", "§5 C11", "control-dependence guards + who-may-call + pairing on flag-sensitive paths"),
-    "C12": ("TS-1 fragment reassembly typestate, GRD-6 end-of-log only on UnexpectedEof / cursor at length", "§5 C12",
+            "DatabaseIterator, PAIR-8 reversal repositions the inner iterator, PAIR-11 a re-loaded child iterator is positioned before use, "
+            "KEY-1 key order, GRD-3 sequence filter of the client iterator; NOT the cursor-vs-sorted-map equivalence", "§6/§11.3 C04",
+            "sibling direction table + must-pass-through"),
+    "C05": ("LCK-2 atomic capture of (sequence, memtable, immutable memtable, version) under the mutex; ORD-8/ORD-8b publication after the "
+            "unlocked WAL+memtable section; ORD-9 rotation without release point and never over a pending immutable memtable; OWN-2/OWN-3 "
+            "single writer; PAIR-6 group membership; ORD-3; PAIR-2", "§5 C05, §11.3", "lock-region dataflow + who-may-call over the call graph"),
+    "C06": ("ORD-8/ORD-8b/ORD-8c publication order and sequence ranges, LCK-1 sequence captured under the mutex, GRD-3 sequence filter on every "
+            "yielding path of the client iterator, GRD-2/ORD-7/GRD-10 compaction keeps or drops the entries of one batch consistently",
+            "§5 C06, §11.3", "lock-region dataflow + guards"),
+    "C07": ("ACC-1 accumulator direction, GRD-2 retention/tombstone guards, ORD-7, ROLE-1 version-edit fidelity, ROLE-3 levels, GRD-10, GRD-13, "
+            "GRD-14, PAIR-9 boundary inputs, PAIR-3 bounds captured from the entries added, ERR-2, ORD-3", "§5 C07, §11.3",
+            "accumulator-direction + control-dependence + role colours"),
+    "C08": ("ERR-1 error discipline over every Result site of the lib crate, GRD-4 sticky-error gates, ORD-3, ERR-2, GRD-5, PAIR-10, PAIR-2 group "
+            "result delivered to followers and leader, ORD-2 sticky WAL error, ORD-4/ORD-5 CURRENT switch survives a failed manifest write",
+            "§5 C08, §11.3", "error-edge path analysis over MIR"),
+    "C09": ("LCK-3 no re-entrant DB-mutex acquisition, LCK-4/LCK-4b waits in re-testing loops that leave on the sticky error, LCK-5/LCK-6 nested "
+            "lock classes, ORD-10 worker epilogue, PAIR-4 schedule flag, ORD-11 writer hand-off, ORD-12 Drop order, PAIR-10, ORD-17, GRD-14 "
+            "non-empty manual compaction inputs", "§5 C09, §11.3", "lock-region dataflow + call-graph summaries + must-pass-through"),
+    "C10": ("ROLE-1 smallest/largest fidelity, ROLE-2 writer/reader field-order agreement of the manifest codec, ROLE-3 levels, ROLE-5 version "
+            "builder ordering and deletion, PAIR-3, PAIR-12 (file, level) pairs, OWN-8 file-number counter, ERR-1 subset / ORD-3 / GRD-4 for "
+            "half-written tables", "§5 C10, §11.3", "role-colour dataflow"),
+    "C11": ("GRD-5 deletion guards, OWN-4 who may delete, ORD-13 pending outputs registered from before the build until after the install, "
+            "ORD-16 GC on every open and the recovery edit names the current WAL, ROLE-4 WAL numbers in edits, PAIR-1 version pins released, "
+            "cache eviction before delete", "§5 C11, §11.3", "control-dependence guards + who-may-call + pairing on flag-sensitive paths"),
+    "C12": ("TS-1 fragment reassembly typestate (incl. dropped fragments), TS-2 writer-side fragment typing and chunking, GRD-6 end-of-log only "
+            "on UnexpectedEof / cursor at length, GRD-11 block offset on reopen and writer/reader trailer agreement", "§5 C12, §11.3",
             "typestate automaton over MIR CFG"),
-    "C13": ("VERD-1 lookup verdicts of Table::get, GRD-7 filter miss is control-dependent on key_may_match == false", "§5 C13",
-            "verdict discipline"),
-    "C14": ("PAIR-5 filter population paired with data-block entries, GRD-8 fail-open filter reader, constant agreement", "§5 C14",
-            "pairing + guards"),
-    "C15": ("ORD-14 verify checksum/magic before parse, OWN-5 parsers fed only by verified bytes, COV-1 checksum coverage, TS-1", "§5 C15",
-            "success-edge dominance + who-may-call + data dependence"),
-    "C16": ("GRD-6 torn header/payload maps to end-of-log, TS-1 torn multi-fragment record never merged with later appends", "§5 C16",
-            "typestate + guards"),
-    "C17": ("ORD-15 lock_file before recovery/any mutation in open and destroy_database, OWN-6 db_lock written only by open and Drop, "
-            "GRD-9 non-blocking exclusive lock kind", "§5 C17", "success-edge dominance + who-may-write"),
+    "C13": ("VERD-1 lookup verdicts of Table::get, GRD-7 filter miss is control-dependent on key_may_match == false, PAIR-7 two-level direction, "
+            "PAIR-11 re-loaded child positioned, PAIR-5 filter population and offsets, KEY-1", "§5 C13, §11.3", "verdict discipline"),
+    "C14": ("PAIR-5/PAIR-5b filter population paired with data-block entries and unconditional in the filter builder, AGR-1 Bloom writer/reader "
+            "probe-sequence agreement and probe count from the filter, GRD-8 fail-open filter reader, GRD-15 filter block belongs to the "
+            "configured policy, GRD-7", "§5 C14, §11.3", "pairing + guards + sibling agreement"),
+    "C15": ("ORD-14 verify checksum/magic before parse, OWN-5 parsers fed only by verified bytes, COV-1 checksum coverage, MAN-1 strict manifest "
+            "reader, TS-1, ERR-1, ERR-2", "§5 C15, §11.3", "success-edge dominance + who-may-call + data dependence"),
+    "C16": ("GRD-6 torn header/payload maps to end-of-log whatever is being reassembled, TS-1, OWN-7 log create modes, GRD-11, GRD-12 reuse only "
+            "completely consumed logs and the consumed-bytes cursor counts complete reads only", "§5 C16, §11.3", "typestate + guards"),
+    "C17": ("ORD-15 lock_file before recovery/any mutation in open and destroy_database and held while data is removed, OWN-6 db_lock written "
+            "only by open and Drop, GRD-9 non-blocking exclusive lock kind that never unlinks the lock file, ORD-12", "§5 C17, §11.3",
+            "success-edge dominance + who-may-write"),
 }
 
 NA = {}
